@@ -61,6 +61,8 @@ MUTANTS = [
      "            comp_id[0], re.escape(comp_id[1])))", "            comp_id[0], comp_id[1]))"),
     ('c08-shared-yaml-nodes-unfixed', 'C08', 'c08', 64, 'python/experiment/model/frontends/flowir.py',
      "        flowir_0 = deep_copy_unshared(flowir_0)\n", "        flowir_0 = deep_copy(flowir_0)\n"),
+    ('c08-lenient-query-cached-unfixed', 'C08', 'c08', 64, 'python/experiment/model/frontends/flowir.py',
+     "        use_cache = need_fully_resolved_flowir and ignore_convert_errors is False\n", "        use_cache = need_fully_resolved_flowir\n"),
     ('c15-variable-files-set-unfixed', 'C15', 'c15', 24, 'python/experiment/model/conf.py',
      "variable_files = list(dict.fromkeys(reversed(variable_files or [])))[::-1]", "variable_files = list(set(variable_files or []))"),
     ('c15-duplicate-variable-file-keeps-first-position-unfixed', 'C15', 'c15', 32, 'python/experiment/model/conf.py',
